@@ -70,6 +70,14 @@ CLAIMS = {
          "every logger call is guarded by the pointer and logging writes no machine state; and that every R_/RV_ operation that can change the "
          "active set refreshes the structure report after its last lifecycle call (in id order). Does not decide activityHistory's saturation arithmetic.",
          "pairing / dominance path rules + effect analysis over clang AST facts in log and report configurations (static analysis)"),
+ "C17": ("Exhaustive within the bound: for every ordered tree over {leaf, composite headed/headless, orthogonal headed/headless} with a region root, at "
+         "least one composite region and <= 5 states (quick; <= 7 thorough), plus wide regions (widths 2..17) and mixed orthogonal-over-composite "
+         "families, the type checker verifies stateId<>(), regionId<>() and all published counts (STATE/REGION/COMPO/ORTHO counts, ORTHO_UNITS, "
+         "COMPO_PRONGS, ACTIVE/RESUMABLE/SERIAL bits, TASK_CAPACITY) against an independent DFS reference, and that separately written peers agree; "
+         "the materialised I_<STATE_ID, COMPO_INDEX, ORTHO_INDEX, ORTHO_UNIT> of every S_/C_/O_ base of every zoo machine and of generated wide "
+         "machines (where unit offsets differ from indices) equal the same reference; and the registration data written by deepRegister/wideRegister "
+         "agree with those indices by value. Shapes beyond the bound are covered only through the uniformity of the metafunctions.",
+         "type-level static_assert witnesses decided by clang -fsyntax-only + class-hierarchy facts from the extractor (static analysis)"),
  "C12": ("Decides tie-breaking operators (left half kept on ties), the utility composition formulas of nested composite / orthogonal regions as expression "
          "shape, same-kind delegation of reports on the way down, rank masking, the shape of the cumulative walk (skip iff cursor >= utility, one rng.next() "
          "per resolution, rng.next called nowhere else, the arrays walked are the arrays summed), that the walk cannot return none, and the anonymous-head "
